@@ -141,8 +141,9 @@ def handle (req : Json) : Except String Json := do
   let modelSteps := revObs.reverse
   let impl ← req.getObjVal? "impl"
   let implSteps ← (← getArr impl "steps").toList.mapM parseStepObs
-  let (nImpl, sImpl) := specHistory names implSteps 0
-  let (_, sModel) := specHistory names modelSteps 0
+  let opsOnly := steps.map (·.1)
+  let (nImpl, sImpl) := specHistory names (opsOnly.zip implSteps) 0
+  let (_, sModel) := specHistory names (opsOnly.zip modelSteps) 0
   let optJ : Option String → Json := fun | some s => Json.str s | none => Json.null
   return Json.mkObj [
     ("model", Json.mkObj [("steps", Json.arr (modelSteps.map jStepObs).toArray)]),
